@@ -78,7 +78,7 @@ def build_driver(drv, libdir):
     for d in olds[5:]:
         shutil.rmtree(d, ignore_errors=True)
     os.makedirs(ddir, exist_ok=True)
-    inc = open(os.path.join(libdir, "inc_flags")).read().strip()
+    inc = "-I%s/gen -I%s/gen/rtrlib -I%s" % (libdir, libdir, REPO)  # headers of the tree under test (same content hash as the library)
     cflags = open(os.path.join(libdir, "c_flags")).read().strip()
     san = " ".join(f for f in cflags.split() if f.startswith("-fsanitize") or f.startswith("-fno-sanitize"))
     san_link = san.replace("fuzzer-no-link", "fuzzer") if drv.get("libfuzzer") else san.replace(",fuzzer-no-link", "")
